@@ -28,7 +28,7 @@ def scenarios(tier):
     sc = []
     # names: 'a' = x.y, 'b' = w.x.y (subdomain of a), 'c' = x.y again (equal to a), 'd' = z (unrelated), 'r' = root
     base_names = {'a': ('L1', 'L2'), 'b': ('L0', 'L1', 'L2'), 'c': ('L1', 'L2'), 'd': ('L3',), 'r': (),
-                  'm': ('B63a', 'B63b', 'B63c', 'B61'), 'n': ('L0', 'B63b', 'B63c', 'B61')}
+                  'm': ('B63a', 'B63b', 'B63c', 'B61'), 'n': ('L0', 'B63b', 'B63c', 'B61'), 'e': ('L2',)}
     sc.append(('empty', dict(q=[], an=[], ns=[], ar=[], opt=None)))
     sc.append(('q1', dict(q=['a'], an=[], ns=[], ar=[], opt=None)))
     sc.append(('q2_shared', dict(q=['a', 'b'], an=[], ns=[], ar=[], opt=None)))
@@ -39,6 +39,9 @@ def scenarios(tier):
     sc.append(('opt_and_ar', dict(q=['a'], an=[], ns=[], ar=[('A', 'a', []), ('TXT', 'b', [])], opt=[2, 0])))
     sc.append(('maxname', dict(q=['m'], an=[('NS', 'm', ['n'])], ns=[], ar=[], opt=None)))   # 255-octet names
     sc.append(('far', dict(q=['a'], an=[('NULLBIG', 'd', []), ('NS', 'b', ['c']), ('NS', 'c', ['b']), ('MX', 'b', ['b'])], ns=[], ar=[], opt=None)))
+    # a name that STRADDLES offset 16383: owner 'b' = L0.L1.L2 starts at 16380, its labels L0/L1 begin at <= 16383, L2 at 16385;
+    # the later name 'e' = L2 shares only the suffix that lies beyond 16383 and must therefore be written in full
+    sc.append(('straddle', dict(q=[], an=[('NULL@16357', 'r', []), ('NS', 'b', ['e']), ('NS', 'e', ['a'])], ns=[], ar=[], opt=None)))
     sc.append(('soa_minfo', dict(q=[], an=[('SOA', 'a', ['b', 'c'])], ns=[('MINFO', 'd', ['a', 'b'])], ar=[], opt=None)))
     if True:      # cheap enough for the quick tier as well
         sc.append(('rp_afsdb_rt', dict(q=['b'], an=[('RP', 'a', ['b', 'c']), ('AFSDB', 'b', ['a'])], ns=[('RouteThrough', 'c', ['b'])], ar=[], opt=None)))
@@ -91,8 +94,8 @@ class Builder:
 
     def rdata(self, tname, rd_names):
         g = self.g
-        if tname in ('NULL', 'NULLBIG'):
-            n = 3 if tname == 'NULL' else 16400
+        if tname in ('NULL', 'NULLBIG') or tname.startswith('NULL@'):
+            n = 3 if tname == 'NULL' else (16400 if tname == 'NULLBIG' else int(tname[5:]))
             if tname == 'NULL':
                 bs, cw = g.cow(3, 'nd')
             else:
@@ -129,9 +132,9 @@ class Builder:
         rd_rust = g.last_rust
         ttl = g.fresh('u32', 'ttl')
         flush = g.fresh('bool', 'fl')
-        if tname in ('NULL', 'NULLBIG'):
+        if tname in ('NULL', 'NULLBIG') or tname.startswith('NULL@'):
             nd = rd.f[1].f[1].f[0]
-            rdr = (lambda m, nd=nd: 'RData::NULL(65280, rdata::NULL::new(%s).unwrap())' % VG.rs_bytes(m, self.I.seq_list(nd))) if tname == 'NULL' else (lambda m: 'RData::NULL(65280, rdata::NULL::new(&[0u8; 16400][..]).unwrap())')
+            rdr = (lambda m, nd=nd: 'RData::NULL(65280, rdata::NULL::new(%s).unwrap())' % VG.rs_bytes(m, self.I.seq_list(nd))) if tname == 'NULL' else (lambda m, nd=nd: 'RData::NULL(65280, rdata::NULL::new(&[0u8; %d][..]).unwrap())' % len(self.I.seq_list(nd)))
         else:
             rdr = lambda m, rd_rust=rd_rust, tname=tname: 'RData::%s(%s)' % (tname, rd_rust(m))
         self.rust_rr[self.cur_section].append(
